@@ -109,7 +109,7 @@ VOLS = ["0", "10", "127.83333333", "100000"]
 CLOSES = ["100", "31234.56"]
 
 
-def standard_plans(tier):
+def standard_plans(tier, borrow_limit_orders=True):
     ps = [
         dict(plan="single", depth=3, bp=8, qp=2),
         dict(plan="single", depth=2, bp=0, qp=2),
@@ -119,8 +119,9 @@ def standard_plans(tier):
     for ab in (False, True):
         for ar in (False, True):
             for lsym in ("USD", "BTC"):
+                kinds = ["limit", "market"] if (borrow_limit_orders or not ab or tier == "thorough") else ["market"]
                 ps.append(dict(plan="loans", depth=2, bp=8, qp=2, lend="margin", namounts=1, closes=CLOSES,
-                               kinds=["limit", "market"], auto_borrow=ab, auto_repay=ar, loan_symbol=lsym))
+                               kinds=kinds, auto_borrow=ab, auto_repay=ar, loan_symbol=lsym))
     if tier == "thorough":
         ps += [
             dict(plan="single", depth=3, bp=8, qp=2, fee="none"),
